@@ -274,7 +274,12 @@ Inductive c20_case :=
 | MedianCase (ty : ity) (input : list Z) (impl : option Z)
 | SeqCase (maxAge : Z) (ops : list sop)
 | ConcCase (maxAge : Z) (calls : list call) (final : list cellrec)
-| LockCase (facts : list lockfact).
+| LockCase (facts : list lockfact)
+(* the gRPC median server (daemons/server/median): after the updates [ups], GetAllMedianValues = [all] (sorted by
+   market) and, per market parameter of [ps] (distinct ids, distinct query data), GetMedianValue with that
+   parameter's query data = price or error; [readT] = wall-clock time of the calls (the update times keep clear of
+   the cut-off by seconds) *)
+| ServerCase (maxAge : Z) (ups : list mupdate) (ps : list mparam) (readT : Z) (all : list (Z * Z)) (singles : list (Z * option Z)).
 
 Definition pair_eqb (a b : Z * Z) : bool := (fst a =? fst b) && (snd a =? snd b).
 
@@ -432,12 +437,28 @@ Definition check_lock (facts : list lockfact) : issues :=
               && existsb (fun f => String.eqb (lf_name f) "GetValidMedianPrices") facts)
              "lock scan did not find UpdatePrices and GetValidMedianPrices".
 
+(* ---- the median server's two endpoints ----------------------------------------------------- *)
+Definition single_answer (m : Z) (r : option Z) : list (Z * Z) := match r with Some v => [(m, v)] | None => [] end.
+Definition check_server (maxAge : Z) (ups : list mupdate) (ps : list mparam) (readT : Z)
+                        (all : list (Z * Z)) (singles : list (Z * option Z)) : issues :=
+  let s := mte_update [] ups in
+  let h := flat_updates ups in
+  let cutoff := readT - maxAge in
+  spec_read h cutoff ps all
+  ++ diff_if (map_eqb (mte_read maxAge s ps readT) all) "GetAllMedianValues"
+  ++ flat_map (fun mr =>
+       let '(m, r) := mr in
+       let psm := filter (fun p => mp_id p =? m) ps in
+       spec_read h cutoff psm (single_answer m r)
+       ++ diff_if (map_eqb (mte_read maxAge s psm readT) (single_answer m r)) "GetMedianValue") singles.
+
 Definition c20_check (c : c20_case) : issues :=
   match c with
   | MedianCase ty input impl => check_median ty input impl
   | SeqCase maxAge ops => check_seq maxAge ops
   | ConcCase maxAge calls final => check_conc maxAge calls final
   | LockCase facts => check_lock facts
+  | ServerCase maxAge ups ps readT all singles => check_server maxAge ups ps readT all singles
   end.
 
 (* no open finding for C20: the code as found satisfies the property on every generated input *)
